@@ -14,6 +14,15 @@ CHECKS = {
  "C19": dict(
    text="Theorems (Props/C19.v) about the decision table Cli.main_model: exit 0 exactly for help/version/'syntax OK' under --check on an accepted file/a simulation that completed and printed its final state, exit 1 with usage or a message and never a final state otherwise; --check never simulates; the timeout honoured is the parsed third positional (u32 grammar: optional '+', digits, < 2^32) or the default of the compiled code (Generated.gen_timeout). Tie: the real binary on ~700 (thorough 12000) argument vectors over all options, 0-4 positionals, valid/rejected/missing HCL, valid/missing/wrong-extension/unloadable/non-UTF-8 images, boundary and malformed timeouts: exit status and outcome class vs the extracted decision table, printed cycle counts vs the timeout.",
    note="partial by nature: getopts (incl. 'option given more than once'), process exit and stream plumbing are modelled by their outcomes, not verified.", ref="4 C19"),
+ "C11": dict(
+   text="Theorems (Props/C11.v): the precedence chain scraped from parser.lalrpop on this run equals the documented table; the predefined names of the compiled preamble, read by the model's own lexer, parser and constant evaluator, have their CS:APP values; chained comparisons rejected, redundant parentheses / comments / line endings irrelevant (computed instances; general round-trip and literal theorems in LexParseProofs.v when available). Tie: all 289 pairs and 1500 (thorough 4913) triples of binary operators without parentheses, unary/slice/in beside every operator, 2000 (50000) random expressions printed with minimal parentheses: grammar AST = model parser AST = fully parenthesised form per the documented table (python oracle from the property's sentence); literal spellings around every power of two to 2^300 in three bases and cases; a program re-rendered with random trivia between all tokens; the preamble's names vs the CS:APP table.",
+   note="the LALRPOP automaton is generated code: tied by correspondence and by re-proving the scraped tier table each run; Unicode classification of non-ASCII characters is a parameter of the lexer model (a small table in the driver).", ref="4 C11"),
+ "C13": dict(
+   text="Theorems (Props/C13.v): rendering a diagnostic never panics for ARBITRARY offsets; the dependency sorter never panics (no counter underflow, cycle search total, fuel suffices) for every hash order; a rejected expression carries a diagnostic; (with C15: the loader is total; with C07: simulation is total). Tie: ~9000 (thorough ~200000) inputs - truncations at every byte, single token insert/replace/delete over a 75-token vocabulary, token soups, texts ending inside literals/comments/declarations/multi-byte characters, overflowing or zero-dividing constant/default/enable expressions - in-process under catch_unwind in the overflow-checking and the wrapping build with diagnostics rendered; a sample and invalid UTF-8 through the real binary.",
+   note="partial: the LALRPOP-generated automaton, its error recovery and lalrpop_util are trusted not to panic or loop (generated/library code); 'promptly' is shown as model-level termination with explicit fuel plus measured timeouts.", ref="4 C13"),
+ "C14": dict(
+   text="Theorems (Props/C14.v): a span of the user's text on one line is rendered with the user's file name, the 1-based line number counted in the user's text whatever the preamble, that line's text and carets under exactly the span (any position: first/last line, with/without final newline, CRLF); regions at or after the preamble's end are headed by the user's file name (the unconditional version is refuted: it needs end >= start). Tie: show_region on every text of length <= 4 (thorough 5) over {a, blank, LF, CR, e-acute, =, heart} with offsets beyond both ends vs the model and vs the property's own arithmetic; 18 located fault kinds injected at known line/column in varied layouts: rendered file, line, echo and carets vs the generator's position.",
+   note="spans produced by the LALRPOP actions (@L/@R) are tied by the located-fault correspondence; binary_search_by_key's choice among equal keys (std-internal) is modelled as 'last' and validated by correspondence.", ref="4 C14"),
  "C15": dict(
    text="Theorems (Props/C15.v): a well-formed data line loads exactly its bytes at consecutive addresses; comment-only and pipe-free lines contribute nothing; every other line is refused (complete characterisation of accepted lines); a file is refused iff empty or containing a refused line, else it is the effect of its lines in order; put_bytes/mem_get law. Tie: valid listings judged against the generator's own byte map, malformed lines (every truncation, column replaced/inserted by blank g + | : e-acute NUL heart), corner files, all vs the model.",
    note="BufRead::lines modelled by split_lines (LF / CRLF); invalid UTF-8 (an io::Error in Rust) is outside the model and exercised through the binary in C19/C13.", ref="4 C15"),
